@@ -1,0 +1,8 @@
+//go:build verif
+
+// Machine-checked contracts for package event (comment-only; read by /verif/gocv).
+
+package event
+
+//@ type FanOut
+//@   field eventConsumers guarded_by eventConsumersLock
